@@ -8,11 +8,13 @@
 
   in : {"cmd":"batt", "carrier":"rat"|"float",
         "nodes":[[name, kind]…], "rails":[[component, rail]…], "battery": name,
-        "vo": num, "rs": num, "cutoff": num, "phases":[[name, num]…],
+        "params":[[source name, vo, rs]…]       (`params()` rows of the Sources before the call)
+        "cutoff": num, "phases":[[name, num]…],
         "probe": cb, "deplete":[cb…]            cb = {"ret":[cap, volt, rs]} | {"raise": class}
         "solve":[[vo, rs, phase, {"i": num} | {"err": class}]…]}
   out: {"outcome": "ok" | "exhausted" | {"raised": {"cls", "detail"}},
-        "log":[[t, cap, volt, rs]…], "calls":[[dt, i]…], "vo": num, "rs": num}
+        "log":[[t, cap, volt, rs]…], "calls":[[dt, i]…],
+        "resolved": component the name resolves to | null, "vo": num, "rs": num   (of that component, afterwards)}
 -/
 import SysLoss.Driver.Wire
 import SysLoss.Model.Batt
@@ -85,6 +87,14 @@ def solveOfTable (tab : List (α × α × String × Except Err α)) (vo rs : α)
   | some e => e.2.2.2
   | none => .error (.other "no-certificate")
 
+def paramOf (j : Json) : Option (String × α × α) :=
+  match j with
+  | .arr #[.str n, vo, rs] => do
+    let vo ← numOf vo
+    let rs ← numOf rs
+    pure (n, vo, rs)
+  | _ => none
+
 def outcomeOut (o : Outcome) : Json :=
   match o with
   | .ok => "ok"
@@ -96,14 +106,18 @@ def run (j : Json) : Json :=
     let nodes ← allSome nodeOf (jArr j "nodes").toList
     let rails ← allSome pairOf (jArr j "rails").toList
     let battery ← (j.getObjValAs? String "battery").toOption
-    let vo ← (j.getObjVal? "vo").toOption >>= numOf
-    let rs ← (j.getObjVal? "rs").toOption >>= numOf
+    let params ← allSome (paramOf (α := α)) (jArr j "params").toList
+    let reg : Reg := ⟨nodes, rails⟩
+    -- `_params` of the node the name resolves to (0, 0 for a node without a Source row: never read then)
+    let (vo, rs) := match reg.getIndex battery with
+      | some (c, _) => (params.lookup c).getD (0, 0)
+      | none => (0, 0)
     let cutoff ← (j.getObjVal? "cutoff").toOption >>= numOf
     let phases ← allSome phaseOf (jArr j "phases").toList
     let probe ← (j.getObjVal? "probe").toOption >>= cbOf
     let deplete ← allSome cbOf (jArr j "deplete").toList
     let tab ← allSome solveEntryOf (jArr j "solve").toList
-    pure ({ reg := ⟨nodes, rails⟩, battery, vo, rs, cutoff, phases, probe, deplete }, tab)
+    pure ({ reg, battery, vo, rs, cutoff, phases, probe, deplete }, tab)
   match parsed with
   | none => Json.mkObj [("bad-op", "batt: malformed input")]
   | some (inp, tab) =>
@@ -112,6 +126,7 @@ def run (j : Json) : Json :=
       ("outcome", outcomeOut out.outcome),
       ("log", .arr (out.log.map fun r => .arr #[Wire.out r.t, Wire.out r.cap, Wire.out r.volt, Wire.out r.rs]).toArray),
       ("calls", .arr (out.calls.map fun c => .arr #[Wire.out c.1, Wire.out c.2]).toArray),
+      ("resolved", match inp.reg.getIndex inp.battery with | some (c, _) => Json.str c | none => Json.null),
       ("vo", Wire.out out.vo),
       ("rs", Wire.out out.rs)]
 
